@@ -1,0 +1,132 @@
+//go:build verif
+
+package rpc
+
+import (
+	"sync/atomic"
+
+	am "github.com/pancsta/asyncmachine-go/pkg/machine"
+)
+
+// Verification hooks, compiled in only with the "verif" build tag: schedule
+// points and thin exported wrappers around the unexported clock-diff codec.
+// They add no logic of their own.
+
+// VerifHook, when set, is called at every schedule point with the name of the
+// point and the server or client reaching it. It may block.
+var VerifHook atomic.Pointer[func(point string, who any)]
+
+func verifPoint(point string, who any) {
+	if h := VerifHook.Load(); h != nil {
+		(*h)(point, who)
+	}
+}
+
+// VerifData is tracerData with exported fields.
+type VerifData struct {
+	TrackedTimeSum uint64
+	Time           am.Time
+	QueueTick      uint64
+	MachTick       uint32
+	Checksum       uint8
+	Tracked        am.S
+	TrackedIdxs    []int
+}
+
+func (d *VerifData) td() *tracerData {
+	if d == nil {
+		return nil
+	}
+
+	return &tracerData{
+		mTrackedTimeSum: d.TrackedTimeSum,
+		mTime:           d.Time,
+		queueTick:       d.QueueTick,
+		machTick:        d.MachTick,
+		checksum:        d.Checksum,
+		tracked:         d.Tracked,
+		trackedIdxs:     d.TrackedIdxs,
+	}
+}
+
+func verifData(d *tracerData) *VerifData {
+	if d == nil {
+		return nil
+	}
+
+	return &VerifData{
+		TrackedTimeSum: d.mTrackedTimeSum,
+		Time:           d.mTime,
+		QueueTick:      d.queueTick,
+		MachTick:       d.machTick,
+		Checksum:       d.checksum,
+		Tracked:        d.tracked,
+		TrackedIdxs:    d.trackedIdxs,
+	}
+}
+
+// VerifMutation is tracerMutation with exported fields.
+type VerifMutation struct {
+	MutType    am.MutationType
+	CalledIdxs []int
+	Data       VerifData
+}
+
+// VerifCalcUpdate calls calcUpdate.
+func VerifCalcUpdate(
+	syncSchema bool, data, lastPush *VerifData, shallowClocks bool,
+) *MsgSrvUpdate {
+	return calcUpdate(syncSchema, data.td(), lastPush.td(), shallowClocks)
+}
+
+// VerifCalcUpdateMutations calls calcUpdateMutations.
+func VerifCalcUpdateMutations(
+	syncSchema bool, muts []VerifMutation, prev *VerifData,
+) *MsgSrvUpdateMuts {
+	tm := make([]tracerMutation, len(muts))
+	for i := range muts {
+		tm[i] = tracerMutation{
+			mutType:    muts[i].MutType,
+			calledIdxs: muts[i].CalledIdxs,
+			data:       *muts[i].Data.td(),
+		}
+	}
+
+	return calcUpdateMutations(syncSchema, tm, prev.td())
+}
+
+// VerifUpdateStatesSchema calls updateStatesSchema.
+func (c *Client) VerifUpdateStatesSchema(resp *MsgSrvHello) {
+	c.updateStatesSchema(resp)
+}
+
+// VerifClockUpdate calls clockUpdate.
+func (c *Client) VerifClockUpdate(update *MsgSrvUpdate) bool {
+	return c.clockUpdate(update, false)
+}
+
+// VerifClockUpdateMutations calls clockUpdateMutations.
+func (c *Client) VerifClockUpdateMutations(msgs *MsgSrvUpdateMuts) bool {
+	return c.clockUpdateMutations(msgs)
+}
+
+// VerifNetMachInternal returns the internal handle of the network machine.
+func (c *Client) VerifNetMachInternal() *NetMachInternal {
+	return c.netMachInt
+}
+
+// VerifLastPush returns a copy of the server's last pushed snapshot.
+func (s *Server) VerifLastPush() *VerifData {
+	s.lockCollection.Lock()
+	defer s.lockCollection.Unlock()
+
+	return verifData(s.lastPushData)
+}
+
+// VerifTracerLatest returns a copy of the source tracer's latest snapshot.
+func (s *Server) VerifTracerLatest() *VerifData {
+	s.lockCollection.Lock()
+	defer s.lockCollection.Unlock()
+
+	return verifData(s.tracer.dataLatest)
+}
